@@ -6737,10 +6737,6 @@ def _compute_deriv_errors(derivative_info, matrix_free, directional, totals, ato
     derivative_info['rel error'] = []
     derivative_info['steps'] = []
 
-    abs_mags = _MagnitudeData()
-    abs_mags.update(Jforward, 'fwd')
-    abs_mags.update(Jreverse, 'rev')
-
     above_tol = above = False
     errs_fwd_rev = err_vals_fwd_rev = None
     if matrix_free:
@@ -6764,6 +6760,10 @@ def _compute_deriv_errors(derivative_info, matrix_free, directional, totals, ato
         err_vals = _ErrorData()
 
         step = steps[i]
+        # one magnitude record per step (fd is the magnitude of this step's approximation)
+        abs_mags = _MagnitudeData()
+        abs_mags.update(Jforward, 'fwd')
+        abs_mags.update(Jreverse, 'rev')
         abs_mags.update(Jfd, 'fd')
 
         if directional:
